@@ -159,6 +159,17 @@ fn print_into(e: &Expr, sp: &Spell, mix: &mut crate::gen::Mix, out: &mut String)
             }
         }
         Expr::Lit(t) => out.push_str(t),
+        // with the sugar spelling, half of the texts write references as calls: (: "n"), (@ "m")
+        Expr::Var(n) if sp.sugar && (sp.seed >> 33) & 1 == 1 => {
+            out.push_str("(: ");
+            out.push_str(&json_str(n));
+            out.push(')');
+        }
+        Expr::Mac(n) if sp.sugar && (sp.seed >> 33) & 1 == 1 => {
+            out.push_str("(@ ");
+            out.push_str(&json_str(n));
+            out.push(')');
+        }
         Expr::Var(n) => {
             out.push(':');
             out.push_str(n);
@@ -575,7 +586,12 @@ impl<'a> Tape<'a> {
 
 // ------------------------------------------------------------------ literals
 
-pub const STR_ATOMS_BMP: &[&str] = &["a", "b", "c", "ab", "A", "1", "2", "10", " ", ",", "-", "a ", "\u{e9}", "\u{65e5}\u{672c}", "\"", "\\", "\n", "\t", "/", "\u{7f}", "\u{1}", "\u{ffff}", "\u{5d0}"];
+// the first 12 are the ASCII set; punctuation that an option parser, a shell-like splitter or a
+// delimiter feature could treat specially sits in both halves
+pub const STR_ATOMS_BMP: &[&str] = &[
+    "a", "b", "c", "ab", "A", "1", "2", "10", " ", ",", "-", ";", "a ", "\u{e9}", "\u{65e5}\u{672c}", "\"", "\\", "\n", "\t", "/", "\u{7f}", "\u{1}", "\u{ffff}", "\u{5d0}", "=", "|", "&", "'", "$", "%", "#", "@", ":", "(", ")", "[", "{", "}", "*", "?", "<", ">", "~", "`", "!", "^", "+", ".",
+    "--", " = ",
+];
 pub const STR_ATOMS_ASTRAL: &[&str] = &["\u{1f603}", "\u{10000}", "\u{10ffff}"];
 pub const NUM_LITS: &[&str] = &[
     "0", "1", "2", "3", "-1", "10", "5", "7", "-7", "4", "100", "0.5", "1.5", "-0.5", "2.25", "0.25", "-2.5", "3.75", "1000", "0.1", "0.2", "3.14", "1e3", "2.5e-1", "1E2", "12.0", "-0.0", "1e10", "9007199254740991", "-9007199254740991",
@@ -928,7 +944,8 @@ impl<'a> Gen<'a> {
                 // an absent path / unknown variable: "nothing"
                 return match self.tape.below(3) {
                     0 => Expr::key(0, "nosuch"),
-                    1 => Expr::Var("unbound".into()),
+                    // never bound - also when the process environment has a variable of that name
+                    1 => Expr::Var(self.tape.pick_s(&["unbound", "JV_TEST_ENV", "HOME", "PATH"]).to_string()),
                     _ => Expr::Path { up: 0, steps: vec![Step::Idx(99)] },
                 };
             }
@@ -1014,7 +1031,7 @@ impl<'a> Gen<'a> {
             }
             ":" | "@" => {
                 let pool: Vec<String> = if s.f == ":" { env.vars.iter().map(|v| v.0.clone()).collect() } else { env.macros.iter().map(|v| v.0.clone()).collect() };
-                let name = if pool.is_empty() || self.tape.chance(1, 6) { "unbound".to_string() } else { pool[self.tape.below(pool.len())].clone() };
+                let name = if pool.is_empty() || self.tape.chance(1, 6) { self.tape.pick_s(&["unbound", "JV_TEST_ENV", "HOME", "PATH"]).to_string() } else { pool[self.tape.below(pool.len())].clone() };
                 let arg = if self.tape.chance(1, 10) { Expr::Lit(self.lit(Any, 1)) } else { Expr::Lit(json_str(&name)) };
                 return Expr::call(s.f, vec![arg]);
             }
